@@ -37,6 +37,9 @@ type Backing struct {
 	Dynamo *fakes.Dynamo
 }
 
+// Release frees the fake database (worlds that created the backing themselves call it on teardown).
+func (b *Backing) Release() { b.Done() }
+
 func (b *Backing) Metastore() appencryption.Metastore       { return b.MS }
 func (b *Backing) RawRows() (kit.RefSnapshot, error)        { return b.rows() }
 func (b *Backing) RevokeRow(id string, created int64) error { return b.revoke(id, created) }
